@@ -13,43 +13,122 @@ verus! {
 pub struct SignatureError {}
 impl SignatureError { #[verifier::external_body] pub fn new() -> SignatureError { unimplemented!() } }
 
+// ---- trusted shim: the part of serde's data model the key (de)serializers use.  Deserializing a std type yields ANY
+// value of that type (the adversary chooses the bytes); a deserializer error type can be built from any message.
+pub mod serde {
+    use vstd::prelude::*;
+    pub mod de {
+        pub trait Error: Sized { fn custom<T>(msg: T) -> Self; }
+    }
+    pub trait Deserializer<'de>: Sized {
+        type Error: de::Error;
+        fn is_human_readable(&self) -> bool;
+    }
+    pub trait Deserialize<'de>: Sized {
+        fn deserialize<D: Deserializer<'de>>(deserializer: D) -> Result<Self, D::Error>;
+    }
+    impl<'de> Deserialize<'de> for String {
+        #[verifier::external_body]
+        fn deserialize<D: Deserializer<'de>>(deserializer: D) -> Result<Self, D::Error> { unimplemented!() }
+    }
+    impl<'de> Deserialize<'de> for [u8; 32] {
+        #[verifier::external_body]
+        fn deserialize<D: Deserializer<'de>>(deserializer: D) -> Result<Self, D::Error> { unimplemented!() }
+    }
+    // curve25519-dalek's own serde impl for CompressedEdwardsY reads 32 bytes and does NOT validate them
+    impl<'de> Deserialize<'de> for super::CompressedEdwardsY {
+        #[verifier::external_body]
+        fn deserialize<D: Deserializer<'de>>(deserializer: D) -> Result<Self, D::Error> { unimplemented!() }
+    }
+    // ed25519-dalek's serde impl for VerifyingKey validates the point
+    impl<'de> Deserialize<'de> for super::ed25519_dalek::VerifyingKey {
+        #[verifier::external_body]
+        fn deserialize<D: Deserializer<'de>>(deserializer: D) -> (r: Result<Self, D::Error>)
+            ensures r matches Ok(k) ==> super::valid_point(k.b@)
+        { unimplemented!() }
+    }
+}
+use serde::Deserialize;
+pub assume_specification<T, const N: usize> [<[T; N] as std::convert::AsRef<[T]>>::as_ref] (a: &[T; N]) -> (r: &[T]) ensures r@ == a@;
+
 // ---- property-level predicates
 pub uninterp spec fn valid_point(b: Seq<u8>) -> bool;                         // the 32 bytes decompress to a curve point
 pub uninterp spec fn ed_valid(pk: Seq<u8>, msg: Seq<u8>, sig: Seq<u8>) -> bool;   // verify_strict accepts
 
-// ---- trusted shims: ed25519_dalek / curve25519_dalek
-pub struct DalekError;
-#[verifier::external] impl core::fmt::Debug for DalekError { fn fmt(&self, f: &mut core::fmt::Formatter<'_>) -> core::fmt::Result { Ok(()) } }
-pub struct DalekSignature { pub b: [u8; 64] }
-pub struct VerifyingKey { pub b: [u8; 32] }
-impl VerifyingKey {
-    // the ONLY source of `valid_point`: dalek's point validation
-    #[verifier::external_body]
-    pub fn from_bytes(bytes: &[u8; 32]) -> (r: Result<VerifyingKey, DalekError>)
-        ensures r is Ok <==> valid_point(bytes@), r matches Ok(k) ==> k.b@ == bytes@
-    { unimplemented!() }
-    #[verifier::external_body]
-    pub fn try_from(bytes: &[u8]) -> (r: Result<VerifyingKey, DalekError>)
-        ensures r is Ok <==> (bytes@.len() == 32 && valid_point(bytes@)), r matches Ok(k) ==> k.b@ == bytes@
-    { unimplemented!() }
-    #[verifier::external_body]
-    pub fn to_bytes(&self) -> (r: [u8; 32]) ensures r@ == self.b@ { unimplemented!() }
-    #[verifier::external_body]
-    pub fn verify_strict(&self, message: &[u8], signature: &DalekSignature) -> (r: Result<(), DalekError>)
-        ensures r is Ok <==> ed_valid(self.b@, message@, signature.b@)
-    { unimplemented!() }
+// ---- trusted shims: ed25519_dalek / curve25519_dalek (same paths and names as the real crates)
+// the secret seed; `pk_of` / `sig_of` are the (uninterpreted) public key derivation and signing functions
+pub uninterp spec fn pk_of(seed: Seq<u8>) -> Seq<u8>;
+pub uninterp spec fn sig_of(seed: Seq<u8>, msg: Seq<u8>) -> Seq<u8>;
+// assumed about Ed25519 (dalek): derived public keys are valid points; an honest signature verifies (completeness)
+pub broadcast axiom fn ed25519_axioms(seed: Seq<u8>, msg: Seq<u8>)
+    ensures #[trigger] ed_valid(pk_of(seed), msg, sig_of(seed, msg)), valid_point(pk_of(seed));
+pub mod ed25519_dalek {
+    use vstd::prelude::*;
+    use super::{valid_point, ed_valid, pk_of, sig_of};
+    pub const PUBLIC_KEY_LENGTH: usize = 32;
+    pub struct DalekError;
+    #[verifier::external] impl core::fmt::Debug for DalekError { fn fmt(&self, f: &mut core::fmt::Formatter<'_>) -> core::fmt::Result { Ok(()) } }
+    pub struct Signature { pub b: [u8; 64] }
+    pub struct VerifyingKey { pub b: [u8; 32] }
+    impl VerifyingKey {
+        // the ONLY source of `valid_point` for untrusted bytes: dalek's point validation
+        #[verifier::external_body]
+        pub fn from_bytes(bytes: &[u8; 32]) -> (r: Result<VerifyingKey, DalekError>)
+            ensures r is Ok <==> valid_point(bytes@), r matches Ok(k) ==> k.b@ == bytes@
+        { unimplemented!() }
+        #[verifier::external_body]
+        pub fn try_from(bytes: &[u8]) -> (r: Result<VerifyingKey, DalekError>)
+            ensures r is Ok <==> (bytes@.len() == 32 && valid_point(bytes@)), r matches Ok(k) ==> k.b@ == bytes@
+        { unimplemented!() }
+        #[verifier::external_body]
+        pub fn to_bytes(&self) -> (r: [u8; 32]) ensures r@ == self.b@ { unimplemented!() }
+        #[verifier::external_body]
+        pub fn verify_strict(&self, message: &[u8], signature: &Signature) -> (r: Result<(), DalekError>)
+            ensures r is Ok <==> ed_valid(self.b@, message@, signature.b@)
+        { unimplemented!() }
+        // the non-strict check accepts more (small-order / non-canonical encodings): it implies nothing about ed_valid
+        #[verifier::external_body]
+        pub fn verify(&self, message: &[u8], signature: &Signature) -> (r: Result<(), DalekError>) { unimplemented!() }
+    }
+    impl Signature {
+        pub const BYTE_SIZE: usize = 64;
+        #[verifier::external_body]
+        pub fn from_slice(bytes: &[u8]) -> (r: Result<Signature, DalekError>)
+            ensures r is Ok <==> bytes@.len() == 64, r matches Ok(s) ==> s.b@ == bytes@
+        { unimplemented!() }
+        #[verifier::external_body]
+        pub fn from_bytes(bytes: &[u8; 64]) -> (r: Signature) ensures r.b@ == bytes@ { unimplemented!() }
+        #[verifier::external_body]
+        pub fn to_bytes(&self) -> (r: [u8; 64]) ensures r@ == self.b@ { unimplemented!() }
+    }
+    pub struct SigningKey { pub seed: [u8; 32] }
+    impl SigningKey {
+        #[verifier::external_body]
+        pub fn from_bytes(bytes: &[u8; 32]) -> (r: SigningKey) ensures r.seed@ == bytes@ { unimplemented!() }
+        #[verifier::external_body]
+        pub fn to_bytes(&self) -> (r: [u8; 32]) ensures r@ == self.seed@ { unimplemented!() }
+        #[verifier::external_body]
+        pub fn verifying_key(&self) -> (r: VerifyingKey) ensures r.b@ == pk_of(self.seed@), valid_point(r.b@) { unimplemented!() }
+        // ed25519_dalek::Signer::sign
+        #[verifier::external_body]
+        pub fn sign(&self, msg: &[u8]) -> (r: Signature) ensures r.b@ == sig_of(self.seed@, msg@) { unimplemented!() }
+    }
 }
+use ed25519_dalek::{SigningKey, VerifyingKey};
 pub struct CompressedEdwardsY(pub [u8; 32]);
 impl CompressedEdwardsY {
     #[verifier::external_body]
     pub fn as_bytes(&self) -> (r: &[u8; 32]) ensures r@ == self.0@ { unimplemented!() }
 }
-pub struct Signature(pub DalekSignature);
 
 //@item iroh-base/src/key.rs struct PublicKey pubfields
+//@item iroh-base/src/key.rs struct SecretKey pubfields
+//@item iroh-base/src/key.rs struct Signature pubfields
+//@item iroh-base/src/key.rs struct SignatureParsingError
+//@item iroh-base/src/key.rs struct PublicKeyShort pubfields pub
 
 impl PublicKey {
-    pub const LENGTH: usize = 32;
+//@item iroh-base/src/key.rs const PublicKey::LENGTH
     // type invariant of PublicKey: its bytes are a valid curve point (established by every constructor below)
     pub open spec fn wf(&self) -> bool { valid_point(self.0.0@) }
 
@@ -92,6 +171,109 @@ impl PublicKey {
 //@- Result<Self, Self::Error>
 //@+ Result<Self, KeyParsingError>
 //@end
+// FromStr for PublicKey: text -> bytes -> point validation
+//@fn iroh-base/src/key.rs FromStr@PublicKey::from_str props=C02 ret=r
+//@| ensures r matches Ok(k) ==> k.wf()
+//@rw D5 1
+//@- Result<Self, Self::Err>
+//@+ Result<PublicKey, KeyParsingError>
+//@end
+// Deserialize for PublicKey (both the human-readable and the binary branch): whatever the deserializer produces, a
+// key is accepted only through point validation
+//@fn iroh-base/src/key.rs Deserialize@PublicKey::deserialize props=C02 ret=r
+//@| ensures r matches Ok(k) ==> k.wf()
+//@rw D5 1
+//@- fn deserialize<D>(
+//@+ fn deserialize<'de, D>(
+//@rw D5 *
+//@- Self::try_from(data.as_ref())
+//@+ Self::try_from_slice(data.as_ref())
+//@end
+// z-base-32 text -> bytes -> point validation
+//@fn iroh-base/src/key.rs PublicKey::from_z32 props=C02 ret=r
+//@| ensures r matches Ok(k) ==> k.wf()
+//@rw R9 1
+//@- .decode(s.as_bytes())
+//@+ .decode(str_as_bytes(s))
+//@rwx R1 1
+//@- \.map_err\(\|_\| e!
+//@+ .map_err(|_w| e!
+//@rw D5 *
+//@- Self::try_from(bytes.as_slice())
+//@+ Self::try_from_slice(bytes.as_slice())
+//@end
+// the 5-byte prefix used for short display: slice + array conversion never panic
+//@fn iroh-base/src/key.rs PublicKey::fmt_short props=C02 ret=r
+//@| ensures r.0@ == self.0.0@.subrange(0, 5)
+//@rw D5 1
+//@- -> impl Display + Copy + 'static
+//@+ -> PublicKeyShort
+//@rwx R12 1
+//@- self\.0\.as_bytes\(\)\[0\.\.5\]\s*\.try_into\(\)
+//@+ slice_try_into_arr::<5>(&self.0.as_bytes()[0..5])
+//@end
+}
+
+impl SecretKey {
+    pub open spec fn seed(&self) -> Seq<u8> { self.0.seed@ }
+//@fn iroh-base/src/key.rs SecretKey::public props=C02 ret=r
+//@| ensures r.wf(), r.0.0@ == pk_of(self.seed())
+//@end
+//@fn iroh-base/src/key.rs SecretKey::sign props=C02 ret=r
+//@| ensures r.0.b@ == sig_of(self.seed(), msg@)
+//@rw D1 1
+//@- use ed25519_dalek::Signer;
+//@+
+//@end
+//@fn iroh-base/src/key.rs SecretKey::to_bytes props=C02 ret=r
+//@| ensures r@ == self.seed()
+//@end
+//@fn iroh-base/src/key.rs SecretKey::from_bytes props=C02 ret=r
+//@| ensures r.seed() == bytes@
+//@end
+//@fn iroh-base/src/key.rs From<[u8;32]>@SecretKey::from props=C02 ret=r name=from_array
+//@| ensures r.seed() == value@
+//@end
+//@fn iroh-base/src/key.rs TryFrom<&[u8]>@SecretKey::try_from props=C02 ret=r name=try_from_slice
+//@| ensures r is Ok <==> bytes@.len() == 32, r matches Ok(k) ==> k.seed() == bytes@
+//@rw D5 1
+//@- Result<Self, Self::Error>
+//@+ Result<Self, KeyParsingError>
+//@rwx R12 1
+//@- bytes\s*\.try_into\(\)
+//@+ slice_try_into_arr::<32>(bytes)
+//@rwx R1 1
+//@- \.map_err\(\|_\| e!
+//@+ .map_err(|_w| e!
+//@end
+//@fn iroh-base/src/key.rs FromStr@SecretKey::from_str props=C02 ret=r
+//@| ensures true
+//@rw D5 1
+//@- Result<Self, Self::Err>
+//@+ Result<SecretKey, KeyParsingError>
+//@rw D5 *
+//@- SecretKey::from(bytes)
+//@+ SecretKey::from_array(bytes)
+//@end
+}
+
+impl Signature {
+//@item iroh-base/src/key.rs const Signature::LENGTH
+//@fn iroh-base/src/key.rs Signature::to_bytes props=C02 ret=r
+//@| ensures r@ == self.0.b@
+//@end
+//@fn iroh-base/src/key.rs Signature::from_bytes props=C02 ret=r
+//@| ensures r.0.b@ == bytes@
+//@end
+//@fn iroh-base/src/key.rs TryFrom<&[u8]>@Signature::try_from props=C02 ret=r name=try_from_slice
+//@| ensures r is Ok <==> bytes@.len() == 64, r matches Ok(s) ==> s.0.b@ == bytes@
+//@rw D5 1
+//@- Result<Self, Self::Error>
+//@+ Result<Self, SignatureParsingError>
+//@rwx R1 1
+//@- \.map_err\(\|_\| e!
+//@+ .map_err(|_w| e!
+//@end
 }
 
 // ---- data_encoding (dependency contracts).  decode_mut PANICS unless the output length is exactly decode_len(input
@@ -100,7 +282,6 @@ pub mod data_encoding {
     use vstd::prelude::*;
     pub struct DecodeError;
     pub struct DecodePartial;
-    #[derive(Clone, Copy, PartialEq, Eq, Structural)]
     pub enum Kind { Hex, Base32NoPad, ZBase32 }
     pub struct Encoding { pub kind: Kind }
     pub open spec fn decode_len_spec(kind: Kind, n: int) -> Option<int> {
@@ -110,16 +291,18 @@ pub mod data_encoding {
             _ => if n % 8 == 0 || n % 8 == 2 || n % 8 == 4 || n % 8 == 5 || n % 8 == 7 { Some(n * 5 / 8) } else { None },
         }
     }
-    #[verifier::external_body]
-    pub exec const HEXLOWER: Encoding ensures HEXLOWER.kind == Kind::Hex { Encoding { kind: Kind::Hex } }
-    #[verifier::external_body]
-    pub exec const BASE32_NOPAD: Encoding ensures BASE32_NOPAD.kind == Kind::Base32NoPad { Encoding { kind: Kind::Base32NoPad } }
+    pub const Z_BASE_32_SHIM: Encoding = Encoding { kind: Kind::ZBase32 };
+    pub const HEXLOWER: Encoding = Encoding { kind: Kind::Hex };
+    pub const BASE32_NOPAD: Encoding = Encoding { kind: Kind::Base32NoPad };
     impl Encoding {
         #[verifier::external_body]
         pub fn decode_mut(&self, input: &[u8], output: &mut [u8]) -> (r: Result<usize, DecodePartial>)
             requires decode_len_spec(self.kind, input@.len() as int) == Some(old(output)@.len() as int)   // documented panic otherwise
             ensures final(output)@.len() == old(output)@.len(), r matches Ok(n) ==> n == old(output)@.len()
         { unimplemented!() }
+        // decode into a fresh Vec: any bytes, or an error
+        #[verifier::external_body]
+        pub fn decode(&self, input: &[u8]) -> (r: Result<Vec<u8>, DecodeError>) { unimplemented!() }
         // Result<usize, DecodeError> compared with `== Ok(n)` in the source: rule R11 redirects that comparison
         #[verifier::external_body]
         pub fn decode_len_is(&self, len: usize, expect: usize) -> (r: bool)
@@ -127,6 +310,15 @@ pub mod data_encoding {
         { unimplemented!() }
     }
 }
+// `new_encoding!{ symbols: "ybndrfg8ejkmcpqxot1uwisza345h769" }` (z-base-32) is a proc macro of data-encoding-macro: shimmed
+pub const Z_BASE_32: data_encoding::Encoding = data_encoding::Z_BASE_32_SHIM;
+// rule R12: <[u8]>::try_into::<[u8; N]>() is Ok iff the lengths agree
+pub struct TryFromSliceError;
+#[verifier::external] impl core::fmt::Debug for TryFromSliceError { fn fmt(&self, f: &mut core::fmt::Formatter<'_>) -> core::fmt::Result { Ok(()) } }
+#[verifier::external_body]
+pub fn slice_try_into_arr<const N: usize>(s: &[u8]) -> (r: Result<[u8; N], TryFromSliceError>)
+    ensures r is Ok <==> s@.len() == N, r matches Ok(a) ==> a@ == s@
+{ unimplemented!() }
 // str plumbing: byte length and ASCII upper-casing (length preserving)
 #[verifier::external_body]
 pub fn str_byte_len(s: &str) -> (r: usize) ensures r == str_bytes(s@).len(), r <= isize::MAX { unimplemented!() }
@@ -145,7 +337,7 @@ pub fn to_ascii_uppercase_bytes(s: &str) -> (r: Vec<u8>) ensures r@.len() == str
 //@+ str_byte_len(s) == PublicKey::LENGTH * 2
 //@rw R9 1
 //@- .decode_mut(s.as_bytes(), &mut bytes)
-//@+ .decode_mut(str_as_bytes(s), bytes.as_mut_slice())
+//@+ .decode_mut(str_as_bytes(s), &mut bytes)
 //@rw R9 1
 //@- let input = s.to_ascii_uppercase();
 //@+ let input = to_ascii_uppercase_bytes(s);
@@ -155,23 +347,42 @@ pub fn to_ascii_uppercase_bytes(s: &str) -> (r: Vec<u8>) ensures r@.len() == str
 //@rw R11 1
 //@- data_encoding::BASE32_NOPAD.decode_len(input.len()) == Ok(bytes.len()),
 //@+ data_encoding::BASE32_NOPAD.decode_len_is(input.len(), bytes.len()),
-//@rw R9 1
-//@- .decode_mut(input, &mut bytes)
-//@+ .decode_mut(input, bytes.as_mut_slice())
 //@rwx R1 2
 //@- \.map_err\(\|_\| e!
 //@+ .map_err(|_w| e!
 //@end
 
-// FromStr for PublicKey: text -> bytes -> point validation
-//@fn iroh-base/src/key.rs FromStr@PublicKey::from_str props=C02 ret=r name=public_key_from_str
-//@| ensures r matches Ok(k) ==> k.wf()
-//@rw D5 1
-//@- Result<Self, Self::Err>
-//@+ Result<PublicKey, KeyParsingError>
-//@rw D5 1
-//@- Self::from_bytes(&bytes)
-//@+ PublicKey::from_bytes(&bytes)
-//@end
+
+// ---- property-level checks composed from the contracts only (callee bodies are not visible here)
+// a signature made with a secret key verifies under its public key
+pub fn check_sign_then_verify(sk: &SecretKey, msg: &[u8]) -> (r: Result<(), SignatureError>)   // [C02]
+    ensures r is Ok
+{
+    broadcast use ed25519_axioms;
+    let pk = sk.public();
+    let sig = sk.sign(msg);
+    pk.verify(msg, &sig)
+}
+// signature bytes round-trip: from_bytes(to_bytes(s)) carries the same 64 bytes, and parsing is total on slices
+pub fn check_signature_roundtrip(s: &Signature) -> (r: Signature)   // [C02]
+    ensures r.0.b@ == s.0.b@
+{
+    let b = s.to_bytes();
+    Signature::from_bytes(&b)
+}
+// secret key bytes round-trip
+pub fn check_secret_roundtrip(sk: &SecretKey) -> (r: SecretKey)   // [C02]
+    ensures r.seed() == sk.seed()
+{
+    let b = sk.to_bytes();
+    SecretKey::from_bytes(&b)
+}
+// public key bytes round-trip: the bytes of an accepted key are accepted again and give the same key
+pub fn check_public_roundtrip(pk: &PublicKey) -> (r: Result<PublicKey, KeyParsingError>)   // [C02]
+    requires pk.wf()
+    ensures r matches Ok(k) && k.0.0@ == pk.0.0@
+{
+    PublicKey::from_bytes(pk.as_bytes())
+}
 } // verus!
 fn main() {}
